@@ -1,9 +1,11 @@
 import Driver.OpsBits
+import Driver.OpsSignal
 /- `canmodel`: reads one operation per line on stdin, prints `model<TAB>spec` per line. -/
 open Driver
 
 def dispatch (ws : List String) : String :=
-  match opsBits ws with
+  let groups : List (List String → Option (String × String)) := [opsBits, opsSignal]
+  match groups.findSome? (fun g => g ws) with
   | some (m, s) => m ++ "\t" ++ s
   | none => "bad-op\t-"
 
